@@ -179,12 +179,12 @@ def generate(R, tier, focus):
     for _ in range(n_ops):
         if R.random() < p_test:
             ops.append({'op': 'TEST', 'name': R.choice(testable), 'obs': R.randrange(len(obs)),
-                        'rng_state': R.randint(0, 2 ** 31 - 1),
+                        'rng_state': R.randint(0, 2 ** 31 - 1), 'verbose': R.random() < 0.3,
                         'seed': R.choice((None, 1, 7, 2 ** 32 - 1, R.randint(1, 10 ** 6)))})
         elif focus in ('C10', 'C18') and R.random() < 0.15:
             ops.append({'op': 'CALIBRATION', 'delta_1': R.random() < 0.5})
         else:
-            ops.append({'op': R.choice(plain_ops)})
+            ops.append({'op': R.choice(plain_ops), 'verbose': R.random() < 0.3})
     prelude = None
     if cfg['source'] == 'file' and R.random() < 0.3:
         # an earlier forecast that lived at the same path (other content): process-level caches keyed by path
@@ -458,22 +458,22 @@ def result_view(res):
             'sim_name': res.sim_name, 'obs_name': res.obs_name, 'min_mw': res.min_mw}
 
 
-def run_test(name, fc, obs, seed):
+def run_test(name, fc, obs, seed, verbose=False):
     from csep.core import catalog_evaluations as ce
     if name == 'number':
-        return ce.number_test(fc, obs, verbose=False)
+        return ce.number_test(fc, obs, verbose=verbose)
     if name == 'spatial':
-        return ce.spatial_test(fc, obs, verbose=False)
+        return ce.spatial_test(fc, obs, verbose=verbose)
     if name == 'magnitude':
-        return ce.magnitude_test(fc, obs, verbose=False)
+        return ce.magnitude_test(fc, obs, verbose=verbose)
     if name == 'pseudolikelihood':
-        return ce.pseudolikelihood_test(fc, obs, verbose=False)
+        return ce.pseudolikelihood_test(fc, obs, verbose=verbose)
     if name == 'resampled_magnitude':
-        return ce.resampled_magnitude_test(fc, obs, verbose=False, seed=seed)
+        return ce.resampled_magnitude_test(fc, obs, verbose=verbose, seed=seed)
     if name == 'MLL_magnitude':
-        return ce.MLL_magnitude_test(fc, obs, full_calculation=False, verbose=False, seed=seed)
+        return ce.MLL_magnitude_test(fc, obs, full_calculation=False, verbose=verbose, seed=seed)
     if name == 'MLL_magnitude_full':
-        return ce.MLL_magnitude_test(fc, obs, full_calculation=True, verbose=False, seed=seed)
+        return ce.MLL_magnitude_test(fc, obs, full_calculation=True, verbose=verbose, seed=seed)
     raise ValueError(name)
 
 
@@ -645,7 +645,7 @@ def _execute(scn, ctx, store, rng, clock, collect_results):
                             {'op': oi, 'got_ids': [g[0] for g in got], 'got_counts': [g[2] for g in got],
                              'canon_ids': canon_ids, 'canon_counts': canon_counts})
         elif kind == 'COUNTS':
-            r = call(fc.get_event_counts, verbose=False)
+            r = call(fc.get_event_counts, verbose=bool(op.get('verbose')))
             if r[0] != 'ok':
                 ctx.violate('C13', 'exception', 'COUNTS:' + r[1], {'op': oi, 'msg': r[2]})
                 return
@@ -669,7 +669,7 @@ def _execute(scn, ctx, store, rng, clock, collect_results):
                 ctx.violate('C13', 'n_cat', 'wrong-before-pass', {'op': oi, 'n_cat': n, 'J': Jc})
         elif kind in ('RATES', 'SPATIAL', 'MAGS'):
             if kind == 'RATES':
-                r = call(fc.get_expected_rates, verbose=False)
+                r = call(fc.get_expected_rates, verbose=bool(op.get('verbose')))
             elif kind == 'SPATIAL':
                 r = call(fc.spatial_counts)
             else:
@@ -721,7 +721,7 @@ def _execute(scn, ctx, store, rng, clock, collect_results):
             obs_s = w.obs_catalog(op['obs'], region_s)
             rng.seed(op['rng_state'])
             rng.mark()
-            rs = call(run_test, name, fc, obs_s, op['seed'])
+            rs = call(run_test, name, fc, obs_s, op['seed'], bool(op.get('verbose')))
             calls_s = list(rng.calls)
             # twin without history
             t = w.new_forecast()
